@@ -177,11 +177,11 @@ def replay(desc, ENV, build, run_binary):
     return (again, out[-1500:].replace(desc['blob'], '<blob>') + p.stderr.decode('utf-8', 'replace')[-1500:])
 
 
-def stream_simple(name, producer_script, harness):
+def stream_simple(name, producer_script, harness, thorough_deadline='1200'):
     """Step factory: nshards pipelines `python3 gen/<producer_script> tier shard n | build/asan/<harness> --tier tier`, no caching."""
     def step(tier, ENV, build, run_binary):
         work = ENV['VERIF_WORK']
-        res, fails = run_stream(ENV, ['python3', os.path.join(ROOT, 'gen', producer_script), tier, '{shard}', '{nshards}'], os.path.join(os.path.dirname(work), 'asan', harness), ['--tier', tier, '--sub', name, '--deadline', '240' if tier == 'quick' else '1200'])
+        res, fails = run_stream(ENV, ['python3', os.path.join(ROOT, 'gen', producer_script), tier, '{shard}', '{nshards}'], os.path.join(os.path.dirname(work), 'asan', harness), ['--tier', tier, '--sub', name, '--deadline', '240' if tier == 'quick' else thorough_deadline])
         agg = merge_stream_results(name, res); agg['samples'] = (agg.get('samples') or []) + [{'producer': 'gen/' + producer_script}]
         c = agg.get('counters', {})
         for key in ('shapings_compared', 'segments_compared'):
